@@ -84,8 +84,98 @@ int main(int argc, char** argv)
 '''
 
 
+CONV_MAIN = r'''
+#include <cstdio>
+#include <cstdlib>
+#include <cstring>
+#include <string_view>
+typedef unsigned __int128 WIDE;
+int main()
+{
+   size_t n = %(n)d; static const unsigned char bytes[] = { %(bytes)s };
+   char* buf = (char*)malloc(n ? n : 1); if (n) memcpy(buf, bytes, n);
+   %(ctype)s r = %(r0)s;
+   bool ret = vf::root_%(root)s(r, %(arg)s);
+   /* oracle: the property statement itself -- exact value or overflow report, never a wrapped value */
+   int bad = 0;
+   const char* mode = "%(mode)s";
+   size_t skip = 0; bool neg = false;
+   if (mode[0] == 's' && n >= 1 && (buf[0] == '-' || buf[0] == '+')) { skip = 1; neg = buf[0] == '-'; }
+   if (mode[0] == 'n') neg = true;
+   bool alldig = n > skip; WIDE H = %(h0)s; bool huge = false;
+   for (size_t i = skip; i < n; ++i) { if (buf[i] < '0' || buf[i] > '9') { alldig = false; break; } H = H * 10 + (WIDE)(buf[i] - '0'); if (H > ((WIDE)1 << 100)) huge = true; }
+   if (alldig) {
+      WIDE lim = neg ? (WIDE)%(negmax)s : (WIDE)%(max)s;
+      bool expect = !huge && H <= lim;
+      if (ret != expect) { printf("CLAUSE-FAILED overflow-report ret=%%d expect=%%d\n", (int)ret, (int)expect); bad = 1; }
+      if (ret && expect) {
+         __int128 got = (__int128)r, want = neg ? -(__int128)H : (__int128)H;
+         if (got != want) { printf("CLAUSE-FAILED value-exact\n"); bad = 1; }
+      }
+   }
+   printf("RESULT ret=%%d bad=%%d\n", (int)ret, bad);
+   return bad ? 3 : 0;
+}
+'''
+
+
+def run_native(job, src, tag):
+    d = os.path.join(WORK, 'replay', job.name)
+    shutil.rmtree(d, ignore_errors=True)
+    os.makedirs(d, exist_ok=True)
+    cpp = os.path.join(d, 'replay.cpp')
+    open(cpp, 'w').write(src)
+    exe = os.path.join(d, 'replay')
+    p = subprocess.run(['clang++', '-std=c++17', '-O1', '-g', '-fsanitize=address,undefined', '-fno-sanitize-recover=undefined',
+                        '-I', INCLUDE, '-I', os.path.join(VERIF, 'contracts'), cpp, '-o', exe], capture_output=True, text=True)
+    if p.returncode != 0:
+        return {'reproduced': False, 'note': 'replay program failed to compile', 'stderr': p.stderr[-1500:]}
+    env = dict(os.environ); env['ASAN_OPTIONS'] = 'detect_leaks=0'
+    try:
+        r = subprocess.run([exe], capture_output=True, text=True, env=env, timeout=60)
+        out = r.stdout + r.stderr
+    except subprocess.TimeoutExpired:
+        out = 'TIMEOUT'
+    failed = re.findall(r'CLAUSE-FAILED (\S+)', out)
+    san = 'AddressSanitizer' in out or 'runtime error' in out
+    try:
+        os.remove(exe)
+    except OSError:
+        pass
+    return {'reproduced': bool(failed or san), 'clauses_failed_natively': failed, 'sanitizer_report': san,
+            'output_tail': out[-1200:], 'program': cpp}
+
+
+def conv_replay(job, rec, mod):
+    rp = job.replay
+    w = rec.get('witness') or {}
+    n = num(w.get('w_n'))
+    bs = []
+    for i in range(min(n, 64)):
+        v = w.get('w_b[%dl]' % i)
+        bs.append(num(v) & 0xFF if v is not None else ord('0'))
+    if n > len(bs):
+        bs += [ord('0')] * (n - len(bs))
+    tu = split_root(mod.tu(), job.root)
+    if tu is None:
+        return {'reproduced': False, 'note': 'root not found in TU'}
+    r0 = str(num(w.get('w_r'), 0)) if rp.get('r_from_witness') else '0'
+    arg = rp.get('arg', 'std::string_view(buf, n)')
+    if rp.get('mode') == 'digit':
+        arg = '(char)%d' % (num(w.get('w_d')) if w.get('w_d') is not None else 48)
+        n = 1; bs = [num(w.get('w_d'), 48) & 0xFF]
+    src = tu + CONV_MAIN % {'n': n, 'bytes': ', '.join(str(b) for b in bs) or '0', 'ctype': rp['ctype'], 'root': job.root,
+                            'mode': rp.get('mode', 'pos'), 'max': rp['max'], 'negmax': rp.get('negmax', '0'), 'r0': r0,
+                            'h0': '(WIDE)%s' % r0, 'arg': arg}
+    res = run_native(job, src, rec.get('tag'))
+    res['input'] = bytes(bs[:64]).decode('latin1')
+    return res
+
+
 def native_replay(job, rec, mod):
     rp = job.replay
+    if rp and rp.get('kind') == 'conv':
+        return conv_replay(job, rec, mod)
     if not rp or rp.get('kind') != 'leaf':
         return {'reproduced': False, 'note': 'no native replay for this job kind'}
     w = rec.get('witness') or {}
